@@ -153,7 +153,7 @@ pub fn judge(ctx: &mut Ctx, site: &str, config: &str, w: &World, plog: &Arc<Mute
 
 fn single_grid(ctx: &mut Ctx, tier: Tier) {
     for &m in ALL.iter() {
-        let modes: Vec<Mode> = if m.can_multiply() { vec![Mode::Plain, Mode::Multiply, Mode::Extreme] } else { vec![Mode::Plain, Mode::Extreme] };
+        let modes: Vec<Mode> = if m.can_multiply() { vec![Mode::Plain, Mode::Multiply, Mode::MultiplyAlt, Mode::Extreme] } else { vec![Mode::Plain, Mode::Extreme] };
         for mode in modes {
             for kind in [Kind::Strict, Kind::Buffer, Kind::ConcurrencyLimit] {
                 for readiness in [Readiness::Ready, Readiness::PendingTwice, Readiness::ErrorOnSecond] {
@@ -178,7 +178,7 @@ fn single_grid(ctx: &mut Ctx, tier: Tier) {
                                 let final_out = if outs[i] { Out::Ok } else { Out::Err(0) };
                                 match mode {
                                     Mode::Plain | Mode::Extreme => g.script.push_back(Plan::now(final_out)),
-                                    Mode::Multiply => {
+                                    Mode::Multiply | Mode::MultiplyAlt => {
                                         // first attempt fails, a further attempt decides
                                         g.script.push_back(Plan::now(Out::Err(0)));
                                         g.script.push_back(Plan::now(final_out));
@@ -211,16 +211,16 @@ fn single_grid(ctx: &mut Ctx, tier: Tier) {
                         let site = match mode {
                             Mode::Plain => format!("{}::call", m.name()),
                             Mode::Extreme => format!("{}::extreme_configuration", m.name()),
-                            Mode::Multiply => format!("{}::further_attempts", m.name()),
+                            Mode::Multiply | Mode::MultiplyAlt => format!("{}::further_attempts", m.name()),
                         };
-                        judge(ctx, &site, &config, &w, &plog, &reqs, &seen, mode == Mode::Multiply, if readiness == Readiness::ErrorOnSecond { Some(1) } else { None });
+                        judge(ctx, &site, &config, &w, &plog, &reqs, &seen, matches!(mode, Mode::Multiply | Mode::MultiplyAlt), if readiness == Readiness::ErrorOnSecond { Some(1) } else { None });
                         let classes: Vec<&str> = seen.iter().map(|s| match s { Seen::Ok(_) => "ok", Seen::Err(EOut::PassThrough(_)) => "pass_through_err", Seen::Err(_) => "layer_err", Seen::ReadinessErr(_) => "readiness_err", Seen::Panicked(_) => "panic" }).collect();
                         ctx.rep.distinct.insert(format!("{config}|{classes:?}"));
                         for c in classes {
                             ctx.rep.witness(c, 1);
                             ctx.rep.outcomes.insert(c.to_string());
                         }
-                        if mode == Mode::Multiply && w.inner.lock().unwrap().calls.len() > 3 {
+                        if matches!(mode, Mode::Multiply | Mode::MultiplyAlt) && w.inner.lock().unwrap().calls.len() > 3 {
                             ctx.rep.witness("further_attempts_made", 1);
                         }
                         if outcome_code == 2 && kind == Kind::Strict && readiness == Readiness::Ready {
